@@ -265,6 +265,17 @@ def geo_worlds(tier: str, seed: int, *, convs=W.ALL_CONVS, big: bool = True) -> 
         out.append(structured_world("cf2d", 2, 2, shape="rect", bounds=True, holes=[(0, 1), (1, 0), (1, 1)]))
     if "shoc_standard" in convs:
         out.append(structured_world("shoc_standard", 1, 1, shape="skew"))
+    # round 13: SQUARE curvilinear grids without usable bounds whose coordinates nevertheless name a bounds variable of the
+    # right SHAPE on the wrong dimensions - (x, y, 4) instead of (y, x, 4), or three unrelated dimensions.  The code ignores
+    # such a variable (with a ConventionViolationWarning) and derives the corners from the centres, so the specification sees a
+    # world without stored bounds; a reader that judges the variable by its shape alone takes cell (i, j)'s corners for (j, i)
+    for conv, how in (("cf2d", "swapped"), ("shoc_simple", "unrelated"), ("cf2d", "unrelated")):
+        if conv not in convs:
+            continue
+        dw = structured_world(conv, 3, 3, shape="skew", bounds=False)
+        dw["decoy_bounds"] = {"how": how, "geom": structured_world(conv, 3, 3, shape="skew", bounds=True)["geom"]}
+        dw["pin_via"] = "memory"
+        out.append(dw)
     for w in out:
         # connectivity with an integer fill value next to the index range only exists undecoded, i.e. as built in memory
         if w["conv"] == "ugrid" and (w.get("enc") or {}).get("fillvalue") is not None:
